@@ -455,6 +455,11 @@ def first_diff(spec, impl):
         # same kind: what differs
         if ka in ("element", "comment", "pi") and "@" in sa and "@" in sb and sa.rsplit("@", 1)[0] == sb.rsplit("@", 1)[0]:
             kind = "line-number:" + ka
+        elif ka == "element" and sa[0] == sb[0]:
+            # same bracket, another name: the same local part under another prefix = the qualified name of the tag was not reported
+            na, nb = unesc(sa[1:].split("@")[0]), unesc(sb[1:].split("@")[0])
+            if na != nb and na.split(":")[-1] == nb.split(":")[-1]:
+                kind = "element-qname:prefix-not-the-one-written-in-the-tag"
         elif ka == "attribute":
             na, nb = sa.split("=", 1)[0], sb.split("=", 1)[0]
             if na != nb:
@@ -639,6 +644,8 @@ def gen_documents(ctx, n_random, n_big):
         d = g.doc()
         if ctx.rng.chance(1, 4):
             d = c02.decorate_ns(d, g)
+        elif ctx.rng.chance(1, 3):
+            d = decorate_alias(d, g)
         b = enc(c02.r_doc(d))
         if ctx.rng.chance(1, 15):
             b = b"\xef\xbb\xbf" + b; g.hit("bom")
@@ -686,6 +693,130 @@ def attnorm_documents(thorough):
             out.append("<!DOCTYPE a [%s<!ATTLIST a x %s #FIXED\n\"%s\" y CDATA #IMPLIED>]><a y='1'>\n<a/></a>" % (ent, ty, v))
             out.append("<!DOCTYPE a [%s<!ATTLIST a x %s #IMPLIED>]><a x='%s'/>" % (ent, ty, v))
     return [{"bytes": enc(s), "kind": "attnorm-exhaustive"} for s in out]
+
+# ------------------------------------------------------------------ one expanded name, several prefixes
+NS_URIS = ["urn:u", "urn:v"]
+
+def ns_alias_documents(rng, n):
+    """DOCTYPE-free documents in which the same expanded name is written with two or more prefixes (and with the default
+    namespace), and the same prefix is re-bound to another namespace name, at sibling and nested positions, on start,
+    end and empty-element tags and on attributes.  The qualified name an API reports must be the one written in the tag
+    (scanners that pool element declarations by expanded name remember the prefix of the first occurrence only)."""
+    out = []
+    for _ in range(n):
+        def ws():
+            return rng.choice(["", "", " ", "\n", "\r\n "])
+        def element(depth, scope, budget):
+            """scope: prefix -> uri ('' = default namespace, absent/'' uri = none)"""
+            scope = dict(scope)
+            decls = []
+            for _ in range(rng.choice([0, 0, 1, 1, 2])):
+                k = rng.below(5)
+                if k == 0:      # a new alias of a namespace name already in scope
+                    pfx, uri = rng.choice(["d", "e2", "a"]), rng.choice(NS_URIS)
+                elif k == 1:    # re-bind a prefix in scope to the other namespace name
+                    cands = [q for q in scope if q]
+                    pfx = rng.choice(cands) if cands else "a"
+                    uri = NS_URIS[1] if scope.get(pfx) == NS_URIS[0] else NS_URIS[0]
+                elif k == 2:    # default namespace on / changed
+                    pfx, uri = "", rng.choice(NS_URIS)
+                elif k == 3:    # default namespace off
+                    pfx, uri = "", ""
+                else:
+                    pfx, uri = rng.choice(["b", "c"]), rng.choice(NS_URIS)
+                if any(d[0] == pfx for d in decls):
+                    continue
+                decls.append((pfx, uri)); scope[pfx] = uri
+            pfxs = [q for q in scope if q and scope[q]] + [""]
+            pfx = rng.choice(pfxs)
+            local = rng.choice(["x", "x", "x", "y"])
+            qn = (pfx + ":" if pfx else "") + local
+            atts, used = [], set()
+            for d in decls:
+                atts.append(("xmlns:" + d[0] if d[0] else "xmlns", d[1]))
+            for _ in range(rng.choice([0, 0, 1, 2, 3])):
+                ap = rng.choice(pfxs)
+                al = rng.choice(["k", "k", "m"])
+                key = (scope.get(ap, "") if ap else None, al)       # unprefixed attributes are in no namespace
+                if key in used:
+                    continue
+                used.add(key)
+                atts.append(((ap + ":" if ap else "") + al, rng.choice(["1", " v ", "p:q", "&#10;"])))
+            rng_atts = list(atts)
+            for i in range(len(rng_atts) - 1, 0, -1):        # attribute order is free
+                j = rng.below(i + 1); rng_atts[i], rng_atts[j] = rng_atts[j], rng_atts[i]
+            tag = "<" + qn + "".join("%s%s=%s" % (rng.choice([" ", "\n", "  "]), a, "'%s'" % v if rng.chance(1, 2) else '"%s"' % v) for a, v in rng_atts) + ws()
+            nkids = 0 if depth >= 4 or budget[0] <= 0 else rng.choice([0, 1, 2, 2, 3, 4])
+            if nkids == 0 and rng.chance(1, 2):
+                return tag + "/>"
+            body = ""
+            for _ in range(nkids):
+                budget[0] -= 1
+                body += rng.choice(["", "", "t", "\n ", "&amp;", "<!--c-->", "<?p d?>", "<![CDATA[z]]>"]) + element(depth + 1, scope, budget)
+            body += rng.choice(["", "u", "\n"])
+            return tag + ">" + body + "</" + qn + ws() + ">"
+        root_scope = {"a": "urn:u", "b": "urn:u", "c": "urn:v"}
+        if rng.chance(1, 2):
+            root_scope[""] = rng.choice(NS_URIS)
+        # the root declares what it uses: render it by hand so that its own name may use any of the prefixes
+        budget = [12]
+        rp = rng.choice(["a", "b", "c", ""] if "" in root_scope else ["a", "b", "c"])
+        rq = (rp + ":" if rp else "") + "x"
+        decl = "".join(" xmlns%s='%s'" % (":" + q if q else "", u) for q, u in sorted(root_scope.items(), key=lambda kv: rng.below(100)))
+        body = ""
+        for _ in range(rng.choice([2, 3, 4, 5])):
+            body += rng.choice(["", "", "t", "\n"]) + element(1, root_scope, budget)
+        doc = rng.choice(["", "", "<?xml version='1.0'?>", "<?xml version='1.1'?>"]) + "<" + rq + decl + ">" + body + "</" + rq + ">" + rng.choice(["", "\n", "<!--e-->"])
+        out.append({"bytes": enc(doc), "kind": "ns-alias"})
+    return out
+
+NS_ALIAS_CURATED = [
+    (b"<r xmlns:a='urn:u' xmlns:b='urn:u'><a:x/><b:x/></r>", "two prefixes, one namespace name: siblings"),
+    (b"<a:x xmlns:a='urn:u'><b:x xmlns:b='urn:u'><a:x/>t</b:x></a:x>", "two prefixes, one namespace name: nested, start and end tags"),
+    (b"<r xmlns:a='urn:u'><a:x/><x xmlns='urn:u'/><a:x xmlns:a='urn:v'/><a:x/></r>", "default namespace and a re-bound prefix"),
+    (b"<r xmlns:a='urn:u' xmlns:b='urn:u'><x a:k='1'/><x b:k='2'/><b:x a:k='3' k='4'/><a:x b:k='5'/></r>", "attributes: two prefixes, one expanded name"),
+    (b"<a:x xmlns:a='urn:u' xmlns:b='urn:u'><b:y><a:y><b:x></b:x></a:y></b:y><a:y/></a:x>", "alternating prefixes, two local names"),
+]
+
+def ns_alias_configs(i, has_dtd, ns_ok):
+    """every API on every scanner with namespaces on; IG also with a schema grammar in use (s1)"""
+    out = []
+    for s in ("IG", "DG", "WF", "SG"):
+        out += ["sax2/%s/1" % s, "sax1/%s/1" % s, "dom/%s/1/e1" % s]
+    out += ["psax2/SG/1", "ls/SG/1/e1f0", "psax1/SG/1", "pdom/SG/1/e0",
+            "sax2/IG/1/s1", "psax2/IG/1/s1", "sax1/IG/1/s1", "dom/IG/1/e1s1", "pdom/IG/1/e1s1",
+            "sax2/IG/0"]
+    return out
+
+def decorate_alias(d, g):
+    """give some elements of a generated document the same expanded name under different prefixes"""
+    r = g.r
+    root = c02.as_pair(d["root"])
+    n_el = len(c02.all_elems(root, [])) - 1
+    if n_el <= 0:
+        return d
+    mk = lambda n, v: {"pre": " ", "name": n, "eq": ("", ""), "q": '"', "val": [("ch", c) for c in v]}
+    chosen = {1 + r.below(n_el) for _ in range(2 + r.below(3))}
+    counter = [0, 0]
+    def rewrite(n, top):
+        if n[0] not in ("elem", "empty"):
+            return n
+        idx = counter[0]; counter[0] += 1
+        t = dict(n[1])
+        name = None
+        if top:
+            t["atts"] = list(t["atts"]) + [mk("xmlns:n1", "urn:u"), mk("xmlns:n2", "urn:u")]
+        elif idx in chosen:
+            name = ["n1:x", "n2:x", "n3:x", "n1:x"][counter[1] % 4]; counter[1] += 1
+            t["name"] = name
+            if name.startswith("n3"):
+                t["atts"] = list(t["atts"]) + [mk("xmlns:n3", "urn:u")]
+        if n[0] == "empty":
+            return ("empty", t)
+        return ("elem", t, [rewrite(k, False) for k in n[2]], name or n[3], n[4])
+    d = dict(d); d["root"] = rewrite(root, True)
+    g.hit("ns.alias")
+    return d
 
 def valid_documents(rng, n):
     """VALID documents (every element declared, content matching) for the validating configurations: white space in
@@ -905,7 +1036,7 @@ def correspondence(ctx):
     best = {}
     evals = norm_tier(ctx)
     common.log("C03 normaliser tier done (t+%.0fs)" % (time.time() - _T0))
-    n_random, n_big = (4000, 150) if th else (300, 24)
+    n_random, n_big = (4000, 150) if th else (270, 24)
     cases, cov = gen_documents(ctx, n_random, n_big)
     e1, spec = run_tier(ctx, cases, best, stats, "generated", lambda i, dtd, nsok: configs_for(i, dtd, nsok, th))
     common.log("C03 generated tier done (%d documents)" % len(cases))
@@ -924,10 +1055,12 @@ def correspondence(ctx):
     VCFG = ["sax1/IG/0/v1", "sax2/DG/1/v1", "dom/IG/1/e1w1v1", "dom/DG/0/e1w0v1", "ls/IG/1/e0w0f0v1", "ls/DG/1/e0w1f3v1", "pdom/IG/0/e0w0v1",
             "psax2/IG/1/v1", "dom/DG/1/e0w1v1", "ls/IG/0/e0w0f2v1", "sax2/IG/0", "dom/DG/1/e1"]
     e5, _ = run_tier(ctx, vcases, best, stats, "validating", lambda i, dtd, nsok: VCFG)
+    ncases = [{"bytes": b, "kind": "ns-alias-curated:" + w} for b, w in NS_ALIAS_CURATED] + ns_alias_documents(ctx.rng, 600 if th else 40)
+    e6, _ = run_tier(ctx, ncases, best, stats, "ns-alias", ns_alias_configs)
     ocases = [{"bytes": b, "kind": "outside-fragment"} for b in OUTSIDE]
     e4, _ = run_tier(ctx, ocases, best, stats, "api-vs-api", lambda i, dtd, nsok: configs_for(i, dtd, True, True))
     flush(ctx, best)
-    stats["evaluations"] = evals + e1 + e2 + e3 + e4 + e5
+    stats["evaluations"] = evals + e1 + e2 + e3 + e4 + e5 + e6
     stats["distinct_nontrivial"] = len(distinct) + len(ecases) + len(acases)
     stats["generated_documents"] = len(cases)
     stats["constructor_coverage"] = dict(sorted(cov.items()))
@@ -946,6 +1079,7 @@ def search(ctx, broken):
     best = {}
     cases, _ = gen_documents(ctx, 300, 10)
     run_tier(ctx, cases + eol_documents(False) + attnorm_documents(False), best, {}, "search", lambda i, dtd, nsok: configs_for(i, dtd, nsok, False))
+    run_tier(ctx, ns_alias_documents(ctx.rng, 40), best, {}, "search-ns-alias", ns_alias_configs)
     known = {f["key"] for f in common.load_findings() if f.get("property") == PID and f.get("status") == "open"}
     for key, v in best.items():
         if key in known:
